@@ -664,11 +664,10 @@ def run(ctx):
         dots = fixed(990010, [{"id": 1, "caller": "root-helper", "dest": IMDS, "rules": imds("enforce"), "reqs": [dict(dotq), dict(dotq, target=TARGETS[9]), get0]},
                               {"id": 2, "caller": "root-helper", "dest": IMDS, "reqs": [dict(dotq, rules=imds("audit"), change="imds"), dict(dotq, target=TARGETS[10], rules=imds("audit"))]}],
                      rules=imds("enforce"))
-        # conservation under simultaneous FIRST denials of never-seen callers (8 OS threads x 250 fresh keys, twice, with a
-        # clear in between), on the real actor and the real status task
+        # conservation under simultaneous FIRST denials of never-seen callers (8 x 600 and, after a clear, 16 x 400 fresh keys), on the real actor and the real status task
         race = fixed(990011, [{"id": 1, "caller": "root-helper", "dest": OTHER, "reqs": [get0],
-                               "ops": [{"op": "summary_burst", "label": "a", "threads": 8, "keys": 250}, {"op": "clear_summary"},
-                                       {"op": "summary_burst", "label": "b", "threads": 16, "keys": 150}]}], race=True)
+                               "ops": [{"op": "summary_burst", "label": "a", "threads": 8, "keys": 600}, {"op": "clear_summary"},
+                                       {"op": "summary_burst", "label": "b", "threads": 16, "keys": 400}]}], race=True)
         hs = [finalize(h) for h in [f8, longs, flips, burst_e, burst_a, crowd, execs, bigs, host403, dots, race] + hs]
 
         def run_batch(batch, env=None, shards=None):
